@@ -15,7 +15,8 @@ import sys
 import time
 
 HERE = os.path.dirname(os.path.dirname(os.path.abspath(__file__)))
-EVID = os.path.join(HERE, "evidence")
+# mutation self-tests against a scratch tree must not overwrite the real evidence
+EVID = os.environ.get("VERIF_EVIDENCE_DIR") or os.path.join(HERE, "evidence")
 REPLAYS = os.path.join(EVID, "replays")
 FINDINGS_FILE = os.path.join(HERE, "known_findings.json")
 
